@@ -1,6 +1,79 @@
-(* placeholder during development *)
-From Coq Require Import List NArith ZArith.
+(* C14 - MessagePack codec: lossless, spec-conformant, rejects truncation.
+   Statements only; proofs are in Proofs/Msgpack*.v.
+   Models: Model/Msgpack.v   (encode = umsgpack.dumps, decode = umsgpack.loads + unread rest, wf = data model)
+           Model/MsgpackSpec.v (Enc = the MessagePack specification, every legal format; spec_decode).
+   No bound on nesting depth, element counts or payload lengths in any statement. *)
+From Coq Require Import List Bool Arith NArith ZArith Lia.
 Import ListNotations.
-From Supp Require Import Model.Msgpack Model.MsgpackSpec.
-Example C14_placeholder : decode [192%N] = Ok (Nil, []).
-Proof. reflexivity. Qed.
+From Supp Require Import Model.Msgpack Model.MsgpackSpec Proofs.MsgpackBytes Proofs.MsgpackProofs Proofs.MsgpackTrunc.
+Local Open Scope N_scope.
+
+(* Lossless: decoding the encoding of a well-formed value gives the value back and leaves exactly
+   the bytes that followed it. *)
+Theorem C14_roundtrip : forall v b, wf v = true -> encode v = Some b ->
+  forall rest, decode (b ++ rest) = Ok (v, rest).
+Proof. exact roundtrip. Qed.
+Print Assumptions C14_roundtrip.
+
+(* Integers outside [-2^63, 2^64) are refused, not wrapped ... *)
+Theorem C14_int_refused : forall z,
+  ~ (-9223372036854775808 <= z < 18446744073709551616)%Z -> encode (Int z) = None.
+Proof. exact int_refused. Qed.
+Print Assumptions C14_int_refused.
+
+(* ... and a container holding a refused member (at any depth, by iteration) is refused. *)
+Theorem C14_refusal_propagates : forall x, encode x = None ->
+  (forall l, In x l -> encode (Arr l) = None) /\
+  (forall kvs y, In (x, y) kvs \/ In (y, x) kvs -> encode (Map kvs) = None).
+Proof.
+  intros x Hx. split.
+  - intros l Hin. eapply encode_arr_none; eassumption.
+  - intros kvs y [Hin|Hin]; eapply encode_map_none; try eassumption; auto.
+Qed.
+Print Assumptions C14_refusal_propagates.
+
+(* Every value of the data model is encoded. *)
+Theorem C14_encode_total : forall v, wf v = true -> encode v <> None.
+Proof. exact encode_total. Qed.
+Print Assumptions C14_encode_total.
+
+(* Every proper prefix of a legal serialisation (any format) of a well-formed value is refused as
+   insufficient data. *)
+Theorem C14_truncation : forall v b p q, wf v = true -> Enc v b -> b = p ++ q -> q <> [] ->
+  decode p = Err Insufficient.
+Proof.
+  intros v b p q Hwf H Hb Hq. apply (truncation v b p Hwf H). exists q. split; assumption.
+Qed.
+Print Assumptions C14_truncation.
+
+(* What the encoder writes is valid MessagePack. *)
+Theorem C14_encode_conforms : forall v b, wf v = true -> encode v = Some b -> Enc v b.
+Proof. intros v b Hwf H. exact (encode_conforms v Hwf b H). Qed.
+Print Assumptions C14_encode_conforms.
+
+(* The decoder accepts every spec-valid serialisation of a well-formed value, including non-minimal
+   integer and length formats and float 32. *)
+Theorem C14_accepts_every_form : forall v b, wf v = true -> Enc v b ->
+  forall rest, decode (b ++ rest) = Ok (v, rest).
+Proof. exact accepts_every_form. Qed.
+Print Assumptions C14_accepts_every_form.
+
+(* Non-vacuity: a nested value with a tuple key, a float key, an ext and a 2^64-1 integer is
+   well-formed, is encoded, and is read back; a non-minimal form of 5 is legal and accepted;
+   cutting it is refused; True and 1 collide as keys. *)
+Example C14_example :
+  let v := Map [(Int 1, Arr [Str [104; 105]; F64 4607182418800017408; Int (-33)]);
+                (Arr [Int 1; Str []], Ext 5 [1; 2; 3; 4]);
+                (F64 4612811918334230528, Int 18446744073709551615)] in
+  wf v = true /\
+  encode v = Some [131; 1; 147; 162; 104; 105; 203; 63; 240; 0; 0; 0; 0; 0; 0; 208; 223;
+                   146; 1; 160; 214; 5; 1; 2; 3; 4;
+                   203; 64; 4; 0; 0; 0; 0; 0; 0; 207; 255; 255; 255; 255; 255; 255; 255; 255] /\
+  Enc (Int 5) [205; 0; 5] /\ decode [205; 0; 5; 7] = Ok (Int 5, [7]) /\
+  decode [205; 0] = Err Insufficient /\
+  wf (Map [(Bool true, Nil); (Int 1, Nil)]) = false /\
+  decode [130; 195; 192; 1; 192] = Err Duplicate.
+Proof.
+  repeat split; try (vm_compute; reflexivity).
+  apply E_int. apply (IE_u16 5). lia.
+Qed.
